@@ -472,6 +472,7 @@ impl Blob {
             && (!old(w).files.contains_key(target_info.path@) ==>
                     old(w).files.contains_key(cpath(old(w).cache_dir, remembered_target_content_info.ticket.bytes()))
                     && final(w).files[target_info.path@] == old(w).files[cpath(old(w).cache_dir, remembered_target_content_info.ticket.bytes())]),
+        res matches Ok(x) ==> single_post(*old(w), *final(w), target_info.path@, remembered_target_content_info.ticket.bytes(), x),   // (summary of the clauses here, used by the caller's loop)
         res matches Ok(FileResolution::NeedsRebuild) ==> !final(w).files.contains_key(target_info.path@)   //# O-D-resolution-needs-rebuild [C02,C20]
             && !file_tk(*old(w), target_info.path@, remembered_target_content_info.ticket)
             && !old(w).files.contains_key(cpath(old(w).cache_dir, remembered_target_content_info.ticket.bytes())),
@@ -501,6 +502,8 @@ impl Blob {
 //@ retype 1 /let mut resolutions = vec!\[\];/ => let mut resolutions : Vec<FileResolution> = Vec::new();
 //@ rewrite 1 /for \(i, info\) in self\.file_infos\.iter\(\)\.enumerate\(\)/ => for i in 0..self.file_infos.len()
 //@ insert after 1/1 /for \(i, info\) in self\.file_infos\.iter\(\)\.enumerate\(\)\s*\{/ => let info = &self.file_infos[i];
+//@ hint before 1/1 /for \(i, info\) in self\.file_infos\.iter\(\)\.enumerate\(\)/
+        proof { rrv_init(*w, *self, remembered_tickets.tickets()); }
 //@ spec
         requires old(cache).wf(*old(w)), inv(*old(w)), no_urls(*downloader_cache_opt), self.wf(*old(w)), self.all_rem_ok(),
             remembered_tickets.infos@.len() == self.file_infos@.len(),                                 //# O-D-hist-wf-needed [C05]
@@ -514,39 +517,104 @@ impl Blob {
                         res_ok(*old(w), *final(w), self.file_infos@[k].path@, remembered_tickets.infos@[k].ticket.bytes(), #[trigger] v@[k]))
                 && (forall|k: int| 0 <= k < self.file_infos@.len() && uniq_at(remembered_tickets.tickets(), k) ==>
                         res_unique(*old(w), *final(w), self.file_infos@[k].path@, remembered_tickets.infos@[k].ticket.bytes(), #[trigger] v@[k], self.all_absent(*old(w)))),
+            res matches Ok(v) ==> (all_already_correct(v@) ==> *final(w) == *old(w)),                   //# O-D-rrv-noop [C02]
 //@ loop 1 invariant
-            invariant cache.wf(*w), cache.path@ == old(cache).path@, inv(*w), no_urls(*downloader_cache_opt), self.wf(*w), self.all_rem_ok(),
+            invariant cache.wf(*w), cache.path@ == old(cache).path@, no_urls(*downloader_cache_opt), self.wf(*old(w)), self.wf(*w), self.all_rem_ok(),
                 remembered_tickets.infos@.len() == self.file_infos@.len(),
-                same_consts(*old(w), *w),
-                kept(*old(w), *w), frame_except(*old(w), *w, self.paths()), w.execs == old(w).execs,
-                resolutions@.len() == i,
-                // done targets: their claim stays true
-                forall|k: int| 0 <= k < i ==> res_ok(*old(w), *w, self.file_infos@[k].path@, remembered_tickets.infos@[k].ticket.bytes(), #[trigger] resolutions@[k]),
-                forall|k: int| 0 <= k < i && uniq_at(remembered_tickets.tickets(), k) ==>
-                        res_unique(*old(w), *w, self.file_infos@[k].path@, remembered_tickets.infos@[k].ticket.bytes(), #[trigger] resolutions@[k], self.all_absent(*old(w))),
-                // pending targets: still as they were; the cache entry of a uniquely remembered hash is still there
-                forall|k: int| i <= k < self.file_infos@.len() ==> (w.files.contains_key(#[trigger] self.file_infos@[k].path@) == old(w).files.contains_key(self.file_infos@[k].path@))
-                        && (w.files.contains_key(self.file_infos@[k].path@) ==> w.files[self.file_infos@[k].path@] == old(w).files[self.file_infos@[k].path@]),
-                forall|k: int| i <= k < self.file_infos@.len() && uniq_at(remembered_tickets.tickets(), k) && old(w).files.contains_key(cpath(old(w).cache_dir, #[trigger] remembered_tickets.tickets()[k]))
-                        ==> w.files.contains_key(cpath(old(w).cache_dir, remembered_tickets.tickets()[k]))
-                            && (self.all_absent(*old(w)) ==> w.files[cpath(old(w).cache_dir, remembered_tickets.tickets()[k])] == old(w).files[cpath(old(w).cache_dir, remembered_tickets.tickets()[k])]),
+                rrv_inv(*old(w), *w, *self, remembered_tickets.tickets(), resolutions@, i as int),
 //@ hint before 1/1 /match resolve_single_target\(/
             let ghost w_i = *w;
+            let ghost res0 = resolutions@;
+            proof { assert(self.paths()[i as int] == self.file_infos@[i as int].path@); }
+//@ hint after 1/1 /Err\(error\) => return Err\(error\),\s*\}/
             proof {
-                assert(self.paths()[i as int] == self.file_infos@[i as int].path@);
-                assert forall|k: int| 0 <= k < self.file_infos@.len() implies cpath_under_fact(w.cache_dir, #[trigger] remembered_tickets.tickets()[k]) by {
-                    cpath_under(w.cache_dir, remembered_tickets.tickets()[k]);
-                }
-                assert forall|k: int| 0 <= k < self.file_infos@.len() && k != i && uniq_at(remembered_tickets.tickets(), k)
-                    implies cpath(w.cache_dir, #[trigger] remembered_tickets.tickets()[k]) != cpath(w.cache_dir, remembered_tickets.tickets()[i as int]) by {
-                    if cpath(w.cache_dir, remembered_tickets.tickets()[k]) == cpath(w.cache_dir, remembered_tickets.tickets()[i as int]) {
-                        cpath_inj(w.cache_dir, remembered_tickets.tickets()[k], remembered_tickets.tickets()[i as int]);
-                    }
-                }
+                assert(resolutions@ =~= res0.push(resolutions@[i as int]));
+                rrv_step(*old(w), w_i, *w, *self, remembered_tickets.tickets(), res0, resolutions@[i as int], i as int);
             }
-//@ hint after 1/1 /Ok\(resolution\) => resolutions\.push\(resolution\),/
-                // (proof context only)
 //@ end
+}
+spec fn all_already_correct(v: Seq<FileResolution>) -> bool { forall|k: int| 0 <= k < v.len() ==> (#[trigger] v[k]) is AlreadyCorrect }
+proof fn aac_push(v: Seq<FileResolution>, r: FileResolution)
+    ensures all_already_correct(v.push(r)) == (all_already_correct(v) && r is AlreadyCorrect)
+{
+    if all_already_correct(v.push(r)) {
+        assert forall|k: int| 0 <= k < v.len() implies (#[trigger] v[k]) is AlreadyCorrect by { assert(v.push(r)[k] == v[k]); }
+        assert(v.push(r)[v.len() as int] == r);
+    }
+}
+// what resolve_single_target promises about one target p with remembered hash r, between worlds a and b
+spec fn single_post(a: World, b: World, p: Seq<char>, r: Seq<u8>, x: FileResolution) -> bool {
+    &&& kept(a, b) && frame_except1(a, b, p) && b.execs == a.execs && inv(b)
+    &&& cache_keeps_except(a, b, cpath(a.cache_dir, r), p)
+    &&& !(x is Downloaded)
+    &&& (x is AlreadyCorrect ==> b == a && a.files.contains_key(p) && sha256(a.files[p].content) == r)
+    &&& (x is Recovered ==> b.files.contains_key(p) && sha256(b.files[p].content) == r && !(a.files.contains_key(p) && sha256(a.files[p].content) == r)
+            && (!a.files.contains_key(p) ==> a.files.contains_key(cpath(a.cache_dir, r)) && b.files[p] == a.files[cpath(a.cache_dir, r)]))
+    &&& (x is NeedsRebuild ==> !b.files.contains_key(p) && !(a.files.contains_key(p) && sha256(a.files[p].content) == r) && !a.files.contains_key(cpath(a.cache_dir, r)))
+}
+// loop invariant of resolve_remembered_file_state_vec: w0 = world at entry, w = now, rs = resolutions so far, i = next target
+spec fn rrv_inv(w0: World, w: World, b: Blob, rr: Seq<Seq<u8>>, rs: Seq<FileResolution>, i: int) -> bool {
+    &&& 0 <= i <= b.file_infos@.len() && rs.len() == i && rr.len() == b.file_infos@.len()
+    &&& same_consts(w0, w) && kept(w0, w) && frame_except(w0, w, b.paths()) && w.execs == w0.execs && inv(w)
+    &&& (all_already_correct(rs) ==> w == w0)
+    // done targets: their claim stays true
+    &&& (forall|k: int| 0 <= k < i ==> res_ok(w0, w, b.file_infos@[k].path@, rr[k], #[trigger] rs[k]))
+    &&& (forall|k: int| 0 <= k < i && uniq_at(rr, k) ==> res_unique(w0, w, b.file_infos@[k].path@, rr[k], #[trigger] rs[k], b.all_absent(w0)))
+    // pending targets: still as they were; the cache entry of a uniquely remembered hash is still there
+    &&& (forall|k: int| i <= k < b.file_infos@.len() ==> (w.files.contains_key(#[trigger] b.file_infos@[k].path@) == w0.files.contains_key(b.file_infos@[k].path@))
+            && (w.files.contains_key(b.file_infos@[k].path@) ==> w.files[b.file_infos@[k].path@] == w0.files[b.file_infos@[k].path@]))
+    &&& (forall|k: int| i <= k < b.file_infos@.len() && uniq_at(rr, k) && w0.files.contains_key(cpath(w0.cache_dir, #[trigger] rr[k]))
+            ==> w.files.contains_key(cpath(w0.cache_dir, rr[k])) && (b.all_absent(w0) ==> w.files[cpath(w0.cache_dir, rr[k])] == w0.files[cpath(w0.cache_dir, rr[k])]))
+}
+proof fn rrv_init(w0: World, b: Blob, rr: Seq<Seq<u8>>)
+    requires inv(w0), rr.len() == b.file_infos@.len()
+    ensures rrv_inv(w0, w0, b, rr, Seq::<FileResolution>::empty(), 0)
+{}
+proof fn rrv_step(w0: World, wi: World, wn: World, b: Blob, rr: Seq<Seq<u8>>, rs: Seq<FileResolution>, x: FileResolution, i: int)
+    requires b.wf(w0), rrv_inv(w0, wi, b, rr, rs, i), i < b.file_infos@.len(),
+        single_post(wi, wn, b.file_infos@[i].path@, rr[i], x),
+    ensures rrv_inv(w0, wn, b, rr, rs.push(x), i + 1)
+{
+    let n = b.file_infos@.len() as int;
+    let cd = w0.cache_dir;
+    let pi = b.file_infos@[i].path@;
+    let rs2 = rs.push(x);
+    assert(b.paths()[i] == pi);
+    frame1_to_n(wi, wn, pi, b.paths());
+    frame_trans(w0, wi, wn, b.paths());
+    kept_trans(w0, wi, wn);
+    aac_push(rs, x);
+    assert forall|k: int| 0 <= k < n && k != i implies (#[trigger] b.file_infos@[k]).path@ != pi && !under(cd, b.file_infos@[k].path@) by {}
+    assert(!under(cd, pi));
+    // untouched paths between wi and wn
+    assert forall|k: int| 0 <= k < n && k != i implies
+        (wn.files.contains_key(#[trigger] b.file_infos@[k].path@) == wi.files.contains_key(b.file_infos@[k].path@))
+        && (wi.files.contains_key(b.file_infos@[k].path@) ==> wn.files[b.file_infos@[k].path@] == wi.files[b.file_infos@[k].path@]) by {
+        let pk = b.file_infos@[k].path@;
+        assert(pk != pi && !under(wi.cache_dir, pk));
+        assert(wi.files.contains_key(pk) == wn.files.contains_key(pk));
+    }
+    assert forall|k: int| 0 <= k < i + 1 implies res_ok(w0, wn, b.file_infos@[k].path@, rr[k], #[trigger] rs2[k]) by {
+        if k < i { assert(rs2[k] == rs[k]); assert(res_ok(w0, wi, b.file_infos@[k].path@, rr[k], rs[k])); }
+        else { assert(rs2[k] == x); assert(wi.files.contains_key(pi) == w0.files.contains_key(pi)); }
+    }
+    assert forall|k: int| 0 <= k < i + 1 && uniq_at(rr, k) implies res_unique(w0, wn, b.file_infos@[k].path@, rr[k], #[trigger] rs2[k], b.all_absent(w0)) by {
+        if k < i { assert(rs2[k] == rs[k]); assert(res_unique(w0, wi, b.file_infos@[k].path@, rr[k], rs[k], b.all_absent(w0))); }
+        else {
+            assert(rs2[k] == x);
+            assert(wi.files.contains_key(pi) == w0.files.contains_key(pi));
+            if w0.files.contains_key(cpath(cd, rr[i])) { assert(wi.files.contains_key(cpath(cd, rr[i]))); }
+            if b.all_absent(w0) { assert(!w0.files.contains_key(b.file_infos@[i].path@)); }
+        }
+    }
+    assert forall|k: int| i + 1 <= k < n && uniq_at(rr, k) && w0.files.contains_key(cpath(cd, #[trigger] rr[k]))
+        implies wn.files.contains_key(cpath(cd, rr[k])) && (b.all_absent(w0) ==> wn.files[cpath(cd, rr[k])] == w0.files[cpath(cd, rr[k])]) by {
+        cpath_under(cd, rr[k]);
+        assert(rr[i] != rr[k]);
+        if cpath(cd, rr[k]) == cpath(cd, rr[i]) { cpath_inj(cd, rr[k], rr[i]); }
+        assert(wi.files.contains_key(cpath(cd, rr[k])));
+        if b.all_absent(w0) { assert(!w0.files.contains_key(b.file_infos@[i].path@)); assert(!wi.files.contains_key(pi)); }
+    }
 }
 spec fn uniq_at(ts: Seq<Seq<u8>>, k: int) -> bool { forall|j: int| 0 <= j < ts.len() && j != k ==> #[trigger] ts[j] != ts[k] }
 spec fn cpath_under_fact(dir: Seq<char>, h: Seq<u8>) -> bool { under(dir, cpath(dir, h)) }
@@ -768,6 +836,7 @@ spec fn path_strs(paths: Seq<Seq<char>>, idx: Seq<usize>) -> Seq<Seq<char>> { Se
                     res_ok(*old(w), *final(w), blob.file_infos@[k].path@, rule_history.map()[*sources_ticket].infos@[k].ticket.bytes(), #[trigger] v@[k]))
             && (forall|k: int| 0 <= k < blob.file_infos@.len() && uniq_at(rule_history.map()[*sources_ticket].tickets(), k) ==>
                     res_unique(*old(w), *final(w), blob.file_infos@[k].path@, rule_history.map()[*sources_ticket].infos@[k].ticket.bytes(), #[trigger] v@[k], blob.all_absent(*old(w))))),
+        res matches Ok(v) ==> ((rule_history.map().contains_key(*sources_ticket) && all_already_correct(v@)) ==> *final(w) == *old(w)),   //# O-D-rwc-noop [C02]
         res matches Ok(v) ==> (!rule_history.map().contains_key(*sources_ticket) ==>                    //# O-D-rwc-no-history [C01,C08]
             (forall|k: int| 0 <= k < blob.file_infos@.len() ==> (#[trigger] v@[k]) is NeedsRebuild) && blob.all_absent(*final(w))),
 //@ end
@@ -808,6 +877,7 @@ spec fn hrn_trace(a: World, b: World, script: Seq<Seq<char>>, paths: Seq<Seq<cha
                     && res_ok(*old(w), *final(w), info.blob.file_infos@[k].path@, rule_ext.rule_history.map()[rule_ext.sources_ticket].infos@[k].ticket.bytes(), v@[k])
             &&& forall|k: int| 0 <= k < info.blob.file_infos@.len() && uniq_at(rule_ext.rule_history.map()[rule_ext.sources_ticket].tickets(), k) ==>
                     res_unique(*old(w), *final(w), info.blob.file_infos@[k].path@, rule_ext.rule_history.map()[rule_ext.sources_ticket].infos@[k].ticket.bytes(), #[trigger] v@[k], info.blob.all_absent(*old(w)))
+            &&& ((rule_ext.rule_history.map().contains_key(rule_ext.sources_ticket) && all_already_correct(v@)) ==> *final(w) == *old(w))     // nothing at all changes when everything is up to date
         }),
         // history returned only with success, still well-formed, old entries kept, the new entry is what is on disk
         res matches Ok(r) ==> r.rule_history matches Some(h) && hist_wf(h.map(), info.blob.file_infos@.len() as int)  //# O-D-hrn-history [C01,C04,C17]
